@@ -1,7 +1,7 @@
 (* C07/Props.v -- property C07, the part carried by theorems: the decision rules behind the diagnostics, for all scopes,
    and the structural classes of the scope machine.  Statements only; proofs in C07/Proofs.v, C04/Proofs.v. *)
 From Coq Require Import ZArith String Sorting.Sorted.
-From FV Require Import Base.Str Shared.ScopeMachine Shared.Resolve C03.Proofs C04.Model C04.Proofs C07.Model C07.Proofs.
+From FV Require Import Base.Str Shared.ScopeMachine Shared.Resolve C03.Proofs C04.Model C04.Proofs C07.Model C07.Proofs C07.Tree.
 
 (* silent on valid structure: every well-formed file, any nesting depth, leaves no END error behind *)
 Theorem valid_program_no_end_errors : forall l last,
@@ -59,6 +59,22 @@ Print Assumptions unknown_module_exact.
 Theorem invalid_parent_exact k pk : valid_parent k pk = negb (invalid_table k pk).
 Proof. exact (valid_parent_table k pk). Qed.
 Print Assumptions invalid_parent_exact.
+
+(* whole programs: a file that is well formed and respects the nesting rules (units at top level, procedures not inside types or
+   block constructs, types inside units/procedures/BLOCK) has neither END errors nor invalid parents, whatever its depth *)
+Theorem valid_structure_publishes_no_structural_error l last :
+  wfs l = true -> forallb top_ok l = true -> nests_ok None l = true ->
+  exists s, parse (renders 1 l) last = Ok s /\ errs s = [] /\ invalid_parent_lines (scopes s) = [].
+Proof. exact (valid_structure_silent l last). Qed.
+Print Assumptions valid_structure_publishes_no_structural_error.
+
+(* and a procedure nested in a type or block construct (any construct with a parent it may not have) is reported on its
+   opening line, wherever in whichever program it stands *)
+Theorem misplaced_construct_is_reported pre post b par n k name bare ends body p x :
+  length pre = b -> par = Some p -> nth_error pre p = Some x -> valid_parent k (Some (s_kind x)) = false ->
+  In (n - 1) (invalid_parent_lines (pre ++ recs b par n (Node k name bare ends body) ++ post)).
+Proof. exact (misplaced_construct_reported pre post b par n k name bare ends body p x). Qed.
+Print Assumptions misplaced_construct_is_reported.
 
 (* what the pinned tree did: a derived type inside a BLOCK construct, which is standard Fortran, was an invalid parent *)
 Definition valid_parent_pinned (k : kind) (pk : option kind) : bool :=
